@@ -11,6 +11,7 @@ import (
 	"io"
 	"math/rand"
 	"strings"
+	"sync"
 	"time"
 
 	"github.com/bobertlo/gmars"
@@ -85,11 +86,36 @@ func readerFor(text []byte) io.Reader {
 	return bytes.NewReader(text)
 }
 
+// keptLoads: results of earlier ParseLoadFile calls and what they looked like when they were
+// returned — a result belongs to the caller and must not change when other files are read
+var keptLoads []gmars.WarriorData
+var keptLoadStrs []string
+var keptLoadChanged string
+var keptLoadMu sync.Mutex // runLoad is also called from the concurrent jobs of the conc domain
+
 func runLoad(cfg gmars.SimulatorConfig, text []byte) string {
 	var w gmars.WarriorData
 	var err error
 	f := guarded(10*time.Second, func() { w, err = gmars.ParseLoadFile(readerFor(text), cfg) })
-	return wresult(w, err, f)
+	res := wresult(w, err, f)
+	keptLoadMu.Lock()
+	defer keptLoadMu.Unlock()
+	if keptLoadChanged == "" {
+		for i := range keptLoads {
+			if now := wresult(keptLoads[i], nil, ""); now != keptLoadStrs[i] {
+				keptLoadChanged = "was " + keptLoadStrs[i] + " now " + now
+			}
+		}
+	}
+	if err == nil && f == "" && len(w.Code) > 0 && len(w.Code) <= 100 {
+		if len(keptLoads) < 4 {
+			keptLoads, keptLoadStrs = append(keptLoads, w), append(keptLoadStrs, res)
+		} else if len(text)%9 == 0 {
+			k := len(text) % 4
+			keptLoads[k], keptLoadStrs[k] = w, res
+		}
+	}
+	return res
 }
 
 func runAsm(cfg gmars.SimulatorConfig, text []byte) string {
@@ -463,6 +489,7 @@ func genLoad(out *bufio.Writer, rng *rand.Rand, count int) int {
 			per--
 		}
 	}
+	fmt.Fprintf(out, "Y yk%d C09:alias results of earlier ParseLoadFile calls after later calls | unchanged ## %s\n", n, map[bool]string{true: "unchanged", false: "changed: " + strings.ReplaceAll(keptLoadChanged, " | ", " / ")}[keptLoadChanged == ""])
 	return n
 }
 
@@ -678,6 +705,11 @@ func genListing(out *bufio.Writer, rng *rand.Rand, count int) int {
 				}
 				d.Code = d.Code[:len(w.Code)]
 				d.Start = w.Start
+				if rng.Intn(3) == 0 {
+					// ... or the very same code with another entry point
+					d.Code = append([]gmars.Instruction(nil), w.Code...)
+					d.Start = (w.Start + 1 + rng.Intn(len(w.Code))) % len(w.Code)
+				}
 				decoy = &d
 			}
 			f := guarded(10*time.Second, func() {
@@ -691,6 +723,7 @@ func genListing(out *bufio.Writer, rng *rand.Rand, count int) int {
 					first, _ := sim.AddWarrior(&shared)
 					if rng.Intn(2) == 0 {
 						copy(shared.Code, w.Code)
+						shared.Start = w.Start
 					} else {
 						shared = gmars.WarriorData{Name: w.Name, Author: w.Author, Start: w.Start, Code: append([]gmars.Instruction(nil), w.Code...)}
 					}
